@@ -136,7 +136,16 @@ pub fn recover(folder: &Path) -> crate::Result<Recovery> {
             })?
             .buf_reader(&version_file_path)?;
 
-        crate::blob_tree::FragmentationMap::decode_from(&mut reader)?
+        let mut gc_stats = crate::blob_tree::FragmentationMap::decode_from(&mut reader)?;
+
+        // NOTE: Statistics of blob files that are not part of the version anymore
+        // (e.g. their tables were dropped) must not survive a restart:
+        // the blob file ID counter restarts above the IDs of the *listed* blob files,
+        // so a new blob file may reuse such an ID and would inherit the stale statistics
+        // (and be considered dead while it is still referenced)
+        gc_stats.retain(|id, _| blob_file_ids.iter().any(|(listed, _)| listed == id));
+
+        gc_stats
     };
 
     Ok(Recovery {
